@@ -477,7 +477,7 @@ func (e *Engine) findBoundedBacktracker(haystack []byte) *Match {
 		if !e.asciiBoundedBacktracker.CanHandle(len(haystack)) {
 			return e.findNFA(haystack)
 		}
-		start, end, found := e.asciiBoundedBacktracker.Search(haystack)
+		start, end, found := e.asciiBTSearch(haystack)
 		if !found {
 			return nil
 		}
